@@ -115,9 +115,11 @@ def run_kani(crate, harnesses, tag, jobs=8, harness_timeout=600, overall_timeout
             if s == 'Failure':
                 item = {'description': ch['description'].strip('"'), 'function': ch['function'],
                         'category': cat, 'location': '%s:%s' % (ch['location']['file'], ch['location']['line'])}
-                if (cat in ('safety_check', 'pointer_dereference', 'pointer')
+                if ((cat in ('safety_check', 'pointer_dereference', 'pointer')
                         and ch['description'].strip('"').startswith('dereference failure')
-                        and ch['function'].split('::')[0].lstrip('<') in ('std', 'core', 'alloc')):
+                        and ch['function'].split('::')[0].lstrip('<') in ('std', 'core', 'alloc'))
+                        or ch['function'] in ('__rust_dealloc', '__rust_alloc', '__rust_realloc', '__rust_alloc_zeroed', 'free', 'malloc', 'realloc')):
+                    # (allocator-model assertions of kani_lib.c are the same family)
                     # Memory safety is outside every claim (runs use --no-memory-safety-checks; safe Rust + trusted std).
                     # Kani 0.68 still emits this residual reference-validity check inside std (e.g. for the dangling
                     # pointer of an empty Vec cloned under a symbolic guard); it is counted, not judged.
